@@ -1145,6 +1145,9 @@ struct ConfigResult {
     found: Option<Found>,
 }
 
+/// `--prop Cxx`: only violations the oracle attributes to this property count (others are skipped, the search goes on).
+static PROP_FILTER: std::sync::OnceLock<String> = std::sync::OnceLock::new();
+
 fn run_config(eng: &dyn Engine, cfg: &Config, seed: u64, iters: usize, max_ops: usize) -> Result<ConfigResult, String> {
     let mut rng = Rng::new(seed.wrapping_mul(0x9E37_79B9_7F4A_7C15) ^ fnv(&cfg.header()));
     let mut res = ConfigResult { histories: 0, ops: 0, found: None };
@@ -1156,6 +1159,10 @@ fn run_config(eng: &dyn Engine, cfg: &Config, seed: u64, iters: usize, max_ops: 
             None => {
                 res.ops += ops.len() as u64;
                 N_OPS.fetch_add(ops.len() as u64, Ordering::Relaxed);
+            }
+            Some(v) if PROP_FILTER.get().map_or(false, |p| p != v.prop) => {
+                res.ops += v.step as u64;
+                N_OPS.fetch_add(v.step as u64, Ordering::Relaxed);
             }
             Some(v) => {
                 res.ops += v.step as u64;
@@ -1232,6 +1239,7 @@ pub fn main_search(args: &[String]) -> i32 {
                     false
                 }
             }
+            "--prop" => PROP_FILTER.set(val.to_string()).is_ok(),
             "--seed" => val.parse().map(|x| seed = x).is_ok(),
             "--iters" => val.parse().map(|x| iters = x).is_ok(),
             "--max-ops" => val.parse().map(|x| max_ops = x).is_ok(),
